@@ -7,7 +7,7 @@ from vcheck import Build, Job, Outcome, VERIF, build_all, collect, gather_sample
 # ------------------------------------------------------------------------------ E1 (C01-C06, C16)
 E1_GROUPS = {
     "dir_NoLabel": 0, "und_NoLabel": 0, "dir_int": 1, "und_int": 1, "dir_string": 2, "und_string": 2,
-    "dir_struct": 3, "und_struct": 3, "dir_double": 4, "dir_unsigned": 4, "dir_char": 4,
+    "dir_struct": 3, "und_struct": 3, "dir_empty": 3, "und_empty": 3, "dir_double": 4, "dir_unsigned": 4, "dir_char": 4,
     "und_double": 5, "und_unsigned": 5, "und_char": 5, "dmulti": 6, "umulti": 6, "dweighted": 7, "uweighted": 7,
 }
 
@@ -22,41 +22,41 @@ def e1_build(group):
 E1_PLANS = {
     "C01": {
         "quick": [(c, "n2") for c in ("dir_NoLabel", "dir_int", "dir_string", "dir_struct", "dir_double")] +
-                 [("dir_NoLabel", "n3"), ("dir_int", "n3d3"), ("dir_string", "n3d3"), ("dir_struct", "n3d3")],
+                 [("dir_NoLabel", "n3"), ("dir_int", "n3d3"), ("dir_string", "n3d3"), ("dir_struct", "n3d3")] + [("dir_NoLabel", "bigger"), ("dir_string", "bigger"), ("dir_int", "n2x"), ("dir_NoLabel", "n1s4")],
         "thorough": [(c, "n2") for c in ("dir_NoLabel", "dir_int", "dir_string", "dir_struct", "dir_double", "dir_unsigned", "dir_char")] +
-                    [(c, "n3") for c in ("dir_NoLabel", "dir_int", "dir_string", "dir_struct")] + [("dir_NoLabel", "n4d5"), ("dir_int", "n4d4")],
+                    [(c, "n3") for c in ("dir_NoLabel", "dir_int", "dir_string", "dir_struct")] + [("dir_NoLabel", "n4d5"), ("dir_int", "n4d4")] + [("dir_NoLabel", "bigger"), ("dir_string", "bigger"), ("dir_int", "n2x"), ("dir_NoLabel", "n1s4")] + [("dir_NoLabel", "big"), ("dir_string", "big"), ("dir_string", "n2x"), ("dir_struct", "n2x"), ("dir_int", "n1s4")],
     },
     "C02": {
         "quick": [(c, "n2") for c in ("und_NoLabel", "und_int", "und_string", "und_struct", "und_double")] +
-                 [("und_NoLabel", "n3"), ("und_int", "n3d4"), ("und_string", "n3d3"), ("und_struct", "n3d3")],
+                 [("und_NoLabel", "n3"), ("und_int", "n3d4"), ("und_string", "n3d3"), ("und_struct", "n3d3")] + [("und_NoLabel", "bigger"), ("und_string", "bigger"), ("und_int", "n2x"), ("und_NoLabel", "n1s4")],
         "thorough": [(c, "n2") for c in ("und_NoLabel", "und_int", "und_string", "und_struct", "und_double", "und_unsigned", "und_char")] +
-                    [(c, "n3") for c in ("und_NoLabel", "und_int", "und_string", "und_struct")] + [("und_NoLabel", "n4d5"), ("und_int", "n4d4")],
+                    [(c, "n3") for c in ("und_NoLabel", "und_int", "und_string", "und_struct")] + [("und_NoLabel", "n4d5"), ("und_int", "n4d4")] + [("und_NoLabel", "bigger"), ("und_string", "bigger"), ("und_int", "n2x"), ("und_NoLabel", "n1s4")] + [("und_NoLabel", "big"), ("und_string", "big"), ("und_string", "n2x"), ("und_struct", "n2x"), ("und_int", "n1s4")],
     },
     "C03": {
         "quick": [(d + t, "n2") for d in ("dir_", "und_") for t in ("int", "unsigned", "double", "char", "string", "struct")] +
-                 [("dir_int", "n3d3"), ("und_int", "n3d4"), ("dir_string", "n3d3"), ("und_struct", "n3d3")],
+                 [("dir_int", "n3d3"), ("und_int", "n3d4"), ("dir_string", "n3d3"), ("und_struct", "n3d3")] + [("dir_string", "bigger"), ("und_string", "bigger"), ("dir_string", "n2x"), ("und_struct", "n2x"), ("und_int", "n1s4"), ("dir_int", "n2dedup"), ("und_string", "n2dedup"), ("dir_empty", "n2"), ("und_empty", "n2")],
         "thorough": [(d + t, "n2") for d in ("dir_", "und_") for t in ("int", "unsigned", "double", "char", "string", "struct")] +
-                    [(d + t, "n3") for d in ("dir_", "und_") for t in ("int", "string", "struct", "double")],
+                    [(d + t, "n3") for d in ("dir_", "und_") for t in ("int", "string", "struct", "double")] + [("dir_string", "bigger"), ("und_string", "bigger"), ("dir_string", "n2x"), ("und_struct", "n2x"), ("und_int", "n1s4"), ("dir_int", "n2dedup"), ("und_string", "n2dedup"), ("dir_empty", "n2"), ("und_empty", "n2")] + [("dir_int", "big"), ("und_string", "big"), ("dir_int", "n2x"), ("und_int", "n2x"), ("dir_double", "n2x"), ("und_char", "n2x"), ("dir_unsigned", "n2x"), ("dir_empty", "n3"), ("und_empty", "n3")],
     },
     "C04": {
-        "quick": [("dmulti", "n2"), ("umulti", "n2"), ("dmulti", "n3d3"), ("umulti", "n3d4")],
-        "thorough": [("dmulti", "n2"), ("umulti", "n2"), ("dmulti", "n3"), ("umulti", "n3")],
+        "quick": [("dmulti", "n2"), ("umulti", "n2"), ("dmulti", "n3d3"), ("umulti", "n3d4")] + [("dmulti", "bigger"), ("umulti", "bigger"), ("dmulti", "n2x"), ("umulti", "n2x"), ("dmulti", "n1s4"), ("umulti", "n1s4")],
+        "thorough": [("dmulti", "n2"), ("umulti", "n2"), ("dmulti", "n3"), ("umulti", "n3")] + [("dmulti", "bigger"), ("umulti", "bigger"), ("dmulti", "n2x"), ("umulti", "n2x"), ("dmulti", "n1s4"), ("umulti", "n1s4")] + [("dmulti", "big"), ("umulti", "big")],
     },
     "C05": {
-        "quick": [("dweighted", "n2"), ("uweighted", "n2"), ("dweighted", "n2tiny"), ("uweighted", "n2tiny"), ("dweighted", "n3d3"), ("uweighted", "n3d4")],
-        "thorough": [("dweighted", "n2"), ("uweighted", "n2"), ("dweighted", "n2tiny"), ("uweighted", "n2tiny"), ("dweighted", "n3a"), ("uweighted", "n3a"), ("dweighted", "n3b"), ("uweighted", "n3b")],
+        "quick": [("dweighted", "n2"), ("uweighted", "n2"), ("dweighted", "n2tiny"), ("uweighted", "n2tiny"), ("dweighted", "n3d3"), ("uweighted", "n3d4")] + [("dweighted", "bigger"), ("uweighted", "bigger"), ("dweighted", "n2x"), ("uweighted", "n2x"), ("dweighted", "n1s4"), ("uweighted", "n1s4")],
+        "thorough": [("dweighted", "n2"), ("uweighted", "n2"), ("dweighted", "n2tiny"), ("uweighted", "n2tiny"), ("dweighted", "n3a"), ("uweighted", "n3a"), ("dweighted", "n3b"), ("uweighted", "n3b")] + [("dweighted", "bigger"), ("uweighted", "bigger"), ("dweighted", "n2x"), ("uweighted", "n2x"), ("dweighted", "n1s4"), ("uweighted", "n1s4")] + [("dweighted", "big"), ("uweighted", "big")],
     },
     "C06": {
         "quick": [(c, "n2") for c in ("dir_NoLabel", "und_NoLabel", "dir_int", "und_int", "dir_string", "und_string", "dmulti", "umulti", "dweighted", "uweighted")] +
-                 [("dir_NoLabel", "n3"), ("und_NoLabel", "n3"), ("dir_int", "n3d3"), ("und_int", "n3d3"), ("dmulti", "n3d3"), ("umulti", "n3d3"), ("dweighted", "n3d3"), ("uweighted", "n3d3")],
+                 [("dir_NoLabel", "n3"), ("und_NoLabel", "n3"), ("dir_int", "n3d3"), ("und_int", "n3d3"), ("dmulti", "n3d3"), ("umulti", "n3d3"), ("dweighted", "n3d3"), ("uweighted", "n3d3")] + [("dir_string", "bigger"), ("und_string", "bigger"), ("uweighted", "bigger"), ("dweighted", "bigger"), ("umulti", "bigger"), ("dir_NoLabel", "bigger"), ("und_string", "n2x"), ("uweighted", "n2x")],
         "thorough": [(c, "n2") for c in ("dir_NoLabel", "und_NoLabel", "dir_int", "und_int", "dir_string", "und_string", "dir_struct", "und_struct", "dmulti", "umulti", "dweighted", "uweighted")] +
-                    [(c, "n3") for c in ("dir_NoLabel", "und_NoLabel", "dir_int", "und_int", "dmulti", "umulti", "dweighted", "uweighted")],
+                    [(c, "n3") for c in ("dir_NoLabel", "und_NoLabel", "dir_int", "und_int", "dmulti", "umulti", "dweighted", "uweighted")] + [("dir_string", "bigger"), ("und_string", "bigger"), ("uweighted", "bigger"), ("dweighted", "bigger"), ("umulti", "bigger"), ("dir_NoLabel", "bigger"), ("und_string", "n2x"), ("uweighted", "n2x")] + [("und_string", "big"), ("umulti", "big"), ("dir_int", "big"), ("dir_empty", "n2"), ("und_empty", "n2")],
     },
     "C16": {
         "quick": [(c, "n2") for c in ("dir_NoLabel", "und_NoLabel", "dir_int", "und_int", "dmulti", "umulti", "dweighted", "uweighted")] +
-                 [("dir_NoLabel", "n3d4"), ("und_NoLabel", "n3d4"), ("und_int", "n3d3"), ("umulti", "n3d3"), ("uweighted", "n3d3")],
+                 [("dir_NoLabel", "n3d4"), ("und_NoLabel", "n3d4"), ("und_int", "n3d3"), ("umulti", "n3d3"), ("uweighted", "n3d3")] + [("und_NoLabel", "bigger"), ("und_string", "bigger"), ("umulti", "bigger"), ("dir_NoLabel", "bigger"), ("umulti", "n2x")],
         "thorough": [(c, "n2") for c in ("dir_NoLabel", "und_NoLabel", "dir_int", "und_int", "dir_string", "und_string", "dmulti", "umulti", "dweighted", "uweighted")] +
-                    [(c, "n3d5") for c in ("dir_NoLabel", "und_NoLabel", "dir_int", "und_int", "dmulti", "umulti", "dweighted", "uweighted")],
+                    [(c, "n3d5") for c in ("dir_NoLabel", "und_NoLabel", "dir_int", "und_int", "dmulti", "umulti", "dweighted", "uweighted")] + [("und_NoLabel", "bigger"), ("und_string", "bigger"), ("umulti", "bigger"), ("dir_NoLabel", "bigger"), ("umulti", "n2x")] + [("und_NoLabel", "big"), ("dmulti", "bigger"), ("uweighted", "bigger")],
     },
 }
 
